@@ -31,6 +31,23 @@ Theorem c02_delivery_sound : forall g c0 ops, real_gen g -> c0 < two64 -> let x 
 Proof. exact xconn_delivery_sound. Qed.
 Print Assumptions c02_delivery_sound.
 
+(* No stale id after a reset (time-out / abort of an attempt, also the attempt of a RETRY, which re-uses the pooled stream
+   object of the request context): after XReset s of a stream not marked by a connection reset, its id is out of the
+   client stream table, no table entry leads to s, and a reply carrying that id later is dropped - it cannot reach the
+   request that uses the stream object next.  Read from the source on every run: xStream.ResetStream starts with the
+   delete under clientMutex (no return before it), and newClientStream starts from a clean stream object, so that XNew's
+   "fresh, alive stream" is what a retry gets. *)
+Theorem c02_reset_leaves_no_stale_id : forall g c0 ops s, real_gen g -> c0 < two64 -> let x := xrun g ops (xinit c0) in
+  (s < nstreams x)%nat -> x_connreset (xst x s) = false ->
+  let x' := fst (xstep g x (XReset s)) in
+  lookup (x_id (xst x s)) (tbl x') = None /\ (forall id, lookup id (tbl x') <> Some s) /\
+  xstep g x' (XResponse (x_id (xst x s))) = (x', ODrop).
+Proof. exact xconn_reset_no_stale_id. Qed.
+Print Assumptions c02_reset_leaves_no_stale_id.
+
+Theorem c02_stream_table_source_shape : xsrc_reset_deletes_unconditionally = true /\ xsrc_client_stream_fresh = true.
+Proof. exact (conj (eq_refl true) (eq_refl true)). Qed.
+
 (* No id collision, through counter wrap-around.  `wok` is the executable ghost "no stream was kept in the table, or
    reset by its holder, id_space g (= 2^32 / 2^64) or more allocations after its own"; `displaced` counts how often a
    stream lost its table entry to ANOTHER stream carrying the same id.  After every history: wok -> displaced = 0;
